@@ -505,3 +505,83 @@ Lemma mux_nontrivial :
         = (Ok s, [2]) /\ s.(m_seg_dur) = 2 * nanos /\
         s.(m_calls) = [FinalDTS 180000; WriteSample 90000 0 false 2 803; SetTrack 1].
 Proof. eexists. vm_compute. repeat split. Qed.
+
+(* ---- the statements of Props/C28.v ---- *)
+Lemma no_panic_refuted_all :
+  (exists data o_mvhd o_init, wf_bytes data = true /\
+     fst (read_header pinned data o_mvhd o_init) = Panic DivZero) /\
+  (exists flen tracks es, ts_nonzero tracks = true /\
+     fst (mux_parts pinned flen tracks 0 nanos es) = Panic NilDeref).
+Proof.
+  split.
+  - exists w_hdr, (fun _ _ => MvhdOk 5 0), (fun _ => InitErr). split; [reflexivity|exact header_pinned_panics].
+  - exists 20, [(1, 90000)], [ETfdt (Some 0)]. split; [reflexivity|exact mux_pinned_panics_tfdt].
+Qed.
+
+Lemma alloc_bound_refuted_all :
+  (exists data o1 o2 o3 tracks, wf_bytes data = true /\ len data = 80 /\
+     In 4294967288 (snd (read_duration_from_parts pinned data o1 o2 o3 tracks))) /\
+  (exists data o_mvhd o_init, wf_bytes data = true /\ len data = 16 /\
+     In 4294967048 (snd (read_header pinned data o_mvhd o_init))) /\
+  (exists tracks es, ts_nonzero tracks = true /\
+     In 4278190082 (snd (mux_parts pinned 933 tracks 0 (100 * nanos) es))).
+Proof.
+  split; [|split].
+  - exists (w_parts 0), (fun _ _ => Some 1), (fun _ _ => Some 0), (fun _ _ => Some []), [(1, 90000)].
+    split; [reflexivity|]. split; [reflexivity|]. rewrite parts_pinned_allocates. left; reflexivity.
+  - exists w_hdr_big, (fun _ _ => MvhdOk 5 1000), (fun _ => InitErr).
+    split; [reflexivity|]. split; [reflexivity|]. rewrite header_pinned_allocates. left; reflexivity.
+  - eexists [(1, 90000)], _. split; [reflexivity|]. rewrite mux_pinned_allocates. left; reflexivity.
+Qed.
+
+Lemma no_panic_all :
+  (forall data o_mvhd o_init w, wf_bytes data = true ->
+     fst (read_header repaired data o_mvhd o_init) <> Panic w) /\
+  (forall data o_tfhd o_tfdt o_trun tracks w, wf_bytes data = true -> ts_nonzero tracks = true ->
+     fst (read_duration_from_parts repaired data o_tfhd o_tfdt o_trun tracks) <> Panic w) /\
+  (forall data o_mvhd o_init o_tfhd o_tfdt o_trun w, wf_bytes data = true ->
+     (forall n tracks, o_init n = InitOk tracks -> ts_nonzero tracks = true) ->
+     fst (parse_segment repaired data o_mvhd o_init o_tfhd o_tfdt o_trun) <> Panic w) /\
+  (forall file_len tracks start_dts duration events w, ts_nonzero tracks = true ->
+     fst (mux_parts repaired file_len tracks start_dts duration events) <> Panic w) /\
+  (forall first segs w, seek_loop first first segs 0 <> Panic w).
+Proof.
+  repeat split.
+  - intros data o1 o2 w Hw. apply (read_header_spec data Hw o1 o2).
+  - intros data o1 o2 o3 tracks w Hw Hts. apply (read_duration_from_parts_spec data Hw o1 o2 o3 tracks Hts).
+  - intros data o1 o2 o3 o4 o5 w Hw Hi. apply (parse_segment_spec data Hw o1 o2 o3 o4 o5 Hi).
+  - intros fl tracks s d es w Hts. apply (mux_parts_spec fl tracks Hts s d es).
+  - intros first segs w. apply seek_loop_no_panic. auto.
+Qed.
+
+Lemma alloc_bound_all :
+  (forall data o_mvhd o_init a, wf_bytes data = true ->
+     In a (snd (read_header repaired data o_mvhd o_init)) -> a <= Z.max 8 (len data)) /\
+  (forall data o_tfhd o_tfdt o_trun tracks a, wf_bytes data = true -> ts_nonzero tracks = true ->
+     In a (snd (read_duration_from_parts repaired data o_tfhd o_tfdt o_trun tracks)) -> a <= Z.max 8 (len data)) /\
+  (forall data o_mvhd o_init o_tfhd o_tfdt o_trun a, wf_bytes data = true ->
+     (forall n tracks, o_init n = InitOk tracks -> ts_nonzero tracks = true) ->
+     In a (snd (parse_segment repaired data o_mvhd o_init o_tfhd o_tfdt o_trun)) -> a <= Z.max 8 (len data)) /\
+  (forall file_len tracks start_dts duration events a, ts_nonzero tracks = true ->
+     In a (snd (mux_parts repaired file_len tracks start_dts duration events)) -> a <= Z.max 0 file_len).
+Proof.
+  repeat split.
+  - intros data o1 o2 a Hw Hin.
+    destruct (read_header_spec data Hw o1 o2) as (_ & A & _). exact (proj1 (Forall_forall _ _) A a Hin).
+  - intros data o1 o2 o3 tracks a Hw Hts Hin.
+    destruct (read_duration_from_parts_spec data Hw o1 o2 o3 tracks Hts) as (_ & A).
+    exact (proj1 (Forall_forall _ _) A a Hin).
+  - intros data o1 o2 o3 o4 o5 a Hw Hi Hin.
+    destruct (parse_segment_spec data Hw o1 o2 o3 o4 o5 Hi) as (_ & A). exact (proj1 (Forall_forall _ _) A a Hin).
+  - intros fl tracks s d es a Hts Hin.
+    destruct (mux_parts_spec fl tracks Hts s d es) as (_ & A). exact (proj1 (Forall_forall _ _) A a Hin).
+Qed.
+
+Lemma parts_needs_timescale_ex :
+  exists data o_tfhd o_tfdt o_trun tracks, wf_bytes data = true /\
+    fst (read_duration_from_parts repaired data o_tfhd o_tfdt o_trun tracks) = Panic DivZero.
+Proof.
+  exists (w_parts 8), (fun _ _ => Some 1), (fun _ _ => Some 0), (fun _ _ => Some []), [(1, 0)].
+  split; [reflexivity|exact parts_needs_timescale].
+Qed.
+
